@@ -8,7 +8,7 @@ from ..astutil import (
     attr_stores, block_of, call_name, calls_in, dotted, enclosing_stmt, guard_atoms, lexical_guards, mutating_calls, name_stores,
     subscript_stores, test_atoms, unparse, walk_local,
 )
-from ..report import Registry, sub
+from ..report import Registry, chain, sub
 from ._helpers_rules_b import (
     ORD, PARAM, SET, TAINTED, UNKNOWN, arg_for, call_sites, ordinal_keys, topo_flow,
 )
@@ -310,8 +310,11 @@ def r1(ctx):
     def role_of(e):
         """('dependent'|'prerequisite'|'unknown', root table name, attribute chain)"""
         if isinstance(e, ast.Name):
-            if e.id in roots:
+            if e.id == table:
                 return "dependent", e.id, []
+            end_idx = {i for nm, i, _st in ends if nm == e.id}
+            if end_idx:     # one end of a reported edge: its role is its position in the edge
+                return ("dependent" if end_idx == {dep_i} else "prerequisite"), e.id, []
             for r_ in roots:
                 chain = _derives_from(e.id, r_, f)
                 if chain is not None:
@@ -393,6 +396,14 @@ def _parity(expr, fn, ctx, of, at, depth=0):
         if nm == "reversed" and len(expr.args) == 1:
             p = _parity(expr.args[0], fn, ctx, of, at, depth + 1)
             return None if p is None else 1 - p
+        return None
+    if isinstance(expr, (ast.ListComp, ast.GeneratorExp)) and len(expr.generators) == 1 and not expr.generators[0].is_async:
+        # `[(t, fkcs) for t, fkcs in <sorted> if ..]`: an entry-by-entry copy (possibly filtered) keeps the order
+        gen = expr.generators[0]
+        tn = [x.id for x in ast.walk(gen.target) if isinstance(x, ast.Name)]
+        en = [x.id for x in ast.walk(expr.elt) if isinstance(x, ast.Name)]
+        if tn and en == tn and type(expr.elt) is type(gen.target):
+            return _parity(gen.iter, fn, ctx, of, at, depth + 1)
         return None
     if isinstance(expr, ast.Subscript) and isinstance(expr.slice, ast.Slice):
         p = _parity(expr.value, fn, ctx, of, at, depth + 1)
@@ -1239,6 +1250,387 @@ def _complement_problems(ctx, m_, v, table_p, inc_p, depth=0):
     ctx.require(False, f"{m_.key}: omitted set `{unparse(v)[:60]}` not understood")
 
 
+# ------------------------------------------------------------------ R6 / R7 (str2-f, round-2 seeds C14/3, C14/4)
+VISITORS = ("SchemaGenerator", "SchemaDropper")
+
+
+def _emission_stmts(fn):
+    """statements of a visit_* method that run a DDL element (`<element>._invoke_with(<connection>)`)"""
+    pm = fn.module.parents()
+    out = []
+    for c in calls_in(fn.node):
+        if isinstance(c.func, ast.Attribute) and c.func.attr == "_invoke_with":
+            st = enclosing_stmt(pm, c)
+            if not any(st is x for x in out):
+                out.append(st)
+    return out
+
+
+def _self_calls(test, arg_names):
+    """[(method name, call)] for calls `self.M(<x>)` in `test` whose single argument mentions one of `arg_names`"""
+    out = []
+    for n in ast.walk(test):
+        if isinstance(n, ast.Call) and isinstance(n.func, ast.Attribute) and isinstance(n.func.value, ast.Name) \
+                and n.func.value.id == "self" and len(n.args) == 1 and not n.keywords \
+                and any(isinstance(x, ast.Name) and x.id in arg_names for x in ast.walk(n.args[0])):
+            out.append((n.func.attr, n))
+    return out
+
+
+def _existence_predicate(ctx, cls):
+    """Name of the method P such that <cls>.visit_table emits its DDL only under the outcome of a test that calls
+    `self.P(<table>)` (the checkfirst / existence test which visit_metadata bypasses with create_ok / drop_ok)."""
+    vt = ctx.index.resolve_method(cls, "visit_table")
+    ctx.require(vt is not None and len(vt.params) >= 2, f"{cls.key}: no visit_table(self, table, ..)")
+    ctx.functions_analysed.add(vt.key)
+    g = ctx.cfg(vt)
+    emits = _emission_stmts(vt)
+    ctx.require(emits, f"{vt.key} runs no DDL element")
+    defs = once_bound(vt.node)
+    preds = set()
+    for t, _pol in cfg_guards(g, emits[0]):
+        for m_, _c in _self_calls(expand(t, defs), {vt.params[1]}):
+            preds.add(m_)
+    ctx.require(len(preds) == 1, f"{vt.key}: expected one `self.<existence test>({vt.params[1]})` guarding the emission, found {sorted(preds)}")
+    return next(iter(preds)), vt
+
+
+def _unwrap_order_copy(e):
+    while isinstance(e, ast.Call) and isinstance(e.func, ast.Name) and e.func.id in ("list", "tuple", "sorted", "reversed", "iter") \
+            and len(e.args) >= 1:
+        e = e.args[0]
+    return e
+
+
+def _filtered_by(ctx, fn, expr, pred, depth=0):
+    """Has every element of the collection `expr` (evaluated in `fn`) passed `self.<pred>(element)`?
+    -> (True, how) | (False, what it is) | (None, what is not understood).  The filter may be written as a comprehension
+    condition, as `filter(self.P, ..)`, as an append loop under `if self.P(t)` / after `if not self.P(t): continue`,
+    through an alias of the bound method, or inside a helper method of the same class whose result is handed on."""
+    from . import _helpers_rob_D2 as RD
+    if depth > 5:
+        return None, "too deep"
+    fnode = fn.node
+    pm = fn.module.parents()
+    defs = RD.single_defs(fnode)
+    e = _unwrap_order_copy(RD.strip_cast(expr))
+
+    def passes(test, pol, target):
+        t2 = RD.expand(test, defs, pred=lambda v: True)
+        return (f"self.{pred}({target})", True) in test_atoms(t2, pol)
+
+    comp = RD._comp_of(e) if not isinstance(e, ast.GeneratorExp) else e
+    if isinstance(e, ast.SetComp):
+        comp = e
+    if comp is not None:
+        if len(comp.generators) != 1:
+            return None, f"`{unparse(e)[:60]}`"
+        gen = comp.generators[0]
+        if not (isinstance(gen.target, ast.Name) and isinstance(comp.elt, ast.Name) and comp.elt.id == gen.target.id):
+            return None, f"`{unparse(e)[:60]}` does not copy its elements"
+        if any(passes(t, True, gen.target.id) for t in gen.ifs):
+            return True, f"`{unparse(e)[:70]}`"
+        return _filtered_by(ctx, fn, gen.iter, pred, depth + 1)
+    if isinstance(e, ast.Call) and isinstance(e.func, ast.Name) and e.func.id == "filter" and len(e.args) == 2:
+        f0 = RD.resolve(e.args[0], defs)
+        if isinstance(f0, ast.Attribute) and isinstance(f0.value, ast.Name) and f0.value.id == "self" and f0.attr == pred:
+            return True, f"`{unparse(e)[:70]}`"
+        return _filtered_by(ctx, fn, e.args[1], pred, depth + 1)
+    if isinstance(e, ast.Call) and isinstance(e.func, ast.Attribute) and isinstance(e.func.value, ast.Name) and e.func.value.id == "self" \
+            and fn.cls is not None:
+        h = ctx.index.resolve_method(fn.cls, e.func.attr)
+        if h is None:
+            return None, f"`{unparse(e)[:60]}`"
+        ctx.functions_analysed.add(h.key)
+        vr = virtual_return(h.node)
+        if vr is None:
+            return None, f"helper {h.qualname} has several returns"
+        got, how = _filtered_by(ctx, h, vr[1], pred, depth + 1)
+        if got is False:
+            # the helper hands on one of its arguments: look at what the caller passes
+            r = _unwrap_order_copy(vr[1])
+            if isinstance(r, ast.Name) and r.id in h.params and not any(n == r.id for n, _v, _s in name_stores(h.node)):
+                a = arg_for(e, h, r.id)
+                if a is not None:
+                    return _filtered_by(ctx, fn, a, pred, depth + 1)
+        return got, f"{how} (returned by {h.qualname})"
+    if isinstance(e, ast.Name):
+        builds = RD.list_builds(fnode, e.id, pm)
+        if builds:
+            g = ctx.cfg(fn)
+            verdicts = []
+            for b in builds:
+                if b.form == "empty":
+                    continue
+                if b.form == "comp":
+                    verdicts.append(_filtered_by(ctx, fn, b.holder.value, pred, depth + 1))
+                elif b.form == "loop":
+                    if not (isinstance(b.target, ast.Name) and isinstance(b.elt, ast.Name) and b.elt.id == b.target.id):
+                        verdicts.append((None, f"`{b.text()}` does not copy its elements"))
+                    elif any(passes(t, p, b.target.id) for t, p in RD.guards_of(g, pm, fnode, b.stmt) + list(b.ifs)):
+                        verdicts.append((True, f"`{b.text()[:70]}`"))
+                    else:
+                        verdicts.append(_filtered_by(ctx, fn, b.iter, pred, depth + 1))
+                else:
+                    v = getattr(b.holder, "value", None)
+                    verdicts.append(_filtered_by(ctx, fn, v, pred, depth + 1) if v is not None else (None, f"binding of `{e.id}`"))
+            if verdicts:
+                for want in (False, None):
+                    hit = [v for v in verdicts if v[0] is want]
+                    if hit:
+                        return hit[0]
+                return verdicts[0]
+        if e.id in RD.params_of(fnode):
+            return False, f"`{e.id}` (parameter of {fn.qualname}, as received)"
+        if e.id in defs:
+            return _filtered_by(ctx, fn, defs[e.id], pred, depth + 1)
+        return None, f"bindings of `{e.id}` in {fn.qualname}"
+    if isinstance(e, ast.Attribute) and isinstance(e.value, ast.Name) and e.value.id == "self" and fn.cls is not None:
+        # an instance attribute: what is stored there (in this method, else anywhere in the class hierarchy)
+        d = f"self.{e.attr}"
+        holders = [fn] + [m2 for k in ctx.index.mro(fn.cls) if k is not None for m2 in k.methods.values() if m2 is not fn]
+        verdicts = []
+        for h in holders:
+            vals = [getattr(st, "value", None) for dd, _t, st in attr_stores(h.node) if dd == d]
+            for v in vals:
+                verdicts.append(_filtered_by(ctx, h, v, pred, depth + 1) if v is not None else (None, f"store to `{d}`"))
+            if vals and h is fn:
+                break
+        if not verdicts:
+            return None, f"`{d}` is never stored"
+        for want in (False, None):
+            hit = [v for v in verdicts if v[0] is want]
+            if hit:
+                return hit[0][0], f"`{d}` ({hit[0][1]})"
+        return True, f"`{d}` ({verdicts[0][1]})"
+    if isinstance(e, (ast.Attribute, ast.Subscript, ast.List, ast.Tuple)) or isinstance(e, ast.Call):
+        return False, f"`{unparse(e)[:70]}`"
+    return None, f"`{unparse(e)[:60]}`"
+
+
+@R.rule("C14-R6", floor=2, template="T-FLOW (the existence filter dominates the sort)",
+        desc="create_all / drop_all with checkfirst: visit_metadata bypasses the existence test of visit_table (create_ok / "
+             "drop_ok), so every table it hands to sort_tables_and_constraints must have passed that test BEFORE the sort -- "
+             "the (None, constraints) entry of the result holds the ALTER-emitted constraints of every table that was "
+             "sorted, and dropping table entries afterwards does not remove them (or the constraints of that entry are "
+             "filtered by the same test on their table)")
+def r6(ctx):
+    stc = ctx.func(STC)
+    for cname in VISITORS:
+        cls = ctx.index.cls(f"{DDL}::{cname}")
+        vm = ctx.func(f"{DDL}::{cname}.visit_metadata")
+        pm = vm.module.parents()
+        pred, vt = _existence_predicate(ctx, cls)
+        sorts = [c for c in calls_in(vm.node, into_nested=True) if (call_name(c) or "").rsplit(".", 1)[-1] == stc.name]
+        ctx.require(sorts, f"{vm.key} does not call {stc.name}")
+        g = ctx.cfg(vm)
+        for key, c in ordinal_keys(sorts, lambda c: f"{vm.key}:existence-filter-dominates-sort"):
+            a = arg_for(c, stc, stc.params[0])
+            ctx.require(a is not None, f"{vm.key}: {stc.name} called without tables")
+            got, how = _filtered_by(ctx, vm, a, pred)
+            if got:
+                ctx.ok(key, f"tables handed to the sort: {how} -- all passed `self.{pred}`")
+                continue
+            # alternative: the constraints of the (None, ..) entry are emitted only for tables that pass the test
+            late = False
+            for c2 in calls_in(vm.node):
+                if not (call_name(c2) or "").endswith("traverse_single") or not c2.args or not isinstance(c2.args[0], ast.Name):
+                    continue
+                cv = c2.args[0].id
+                for t, p in list(cfg_guards(g, enclosing_stmt(pm, c2))) + list(comp_guards(pm, c2)):
+                    for m_, call_ in _self_calls(expand(t, once_bound(vm.node)), {cv}):
+                        if m_ == pred and (unparse(call_), True) in test_atoms(expand(t, once_bound(vm.node)), p):
+                            late = True
+            if late:
+                ctx.ok(key, f"the sort receives {how}, but deferred constraints are emitted only when `self.{pred}(<their table>)`")
+                continue
+            ctx.require(got is False, f"{vm.key}: cannot tell whether the tables handed to {stc.name} passed `self.{pred}` ({how})")
+            ctx.violation(key,
+                          f"{cname}.visit_metadata hands {how} to {stc.name} without `self.{pred}(<table>)` having been applied to "
+                          f"it first: {vt.qualname} applies that existence test only when called on its own (visit_metadata "
+                          f"bypasses it), and filtering the sorted (table, constraints) entries afterwards leaves the trailing "
+                          f"(None, constraints) entry untouched -- it then contains the use_alter / cycle-breaking constraints of "
+                          f"tables that were filtered out, and ALTER TABLE .. {'ADD' if cname == VISITORS[0] else 'DROP'} CONSTRAINT is "
+                          f"emitted for tables that are not being {'created (they already exist)' if cname == VISITORS[0] else 'dropped (they do not exist)'}",
+                          f"{vm.module.path}:{c.lineno}")
+
+
+TRUE_, FALSE_ = ("and", []), ("or", [])
+
+
+def _inline_simple_methods(ctx, cls, test, depth=2):
+    """copy of `test` with calls `self.M(args)` of one-expression methods (`def M(self, p..): return <expr>`) replaced by
+    that expression (arguments substituted): a predicate extracted into a helper reads like the inlined predicate"""
+    import copy
+    if cls is None:
+        return test
+
+    class T(ast.NodeTransformer):
+        def visit_Call(self, n):
+            self.generic_visit(n)
+            if isinstance(n.func, ast.Attribute) and isinstance(n.func.value, ast.Name) and n.func.value.id == "self" and not n.keywords:
+                h = ctx.index.resolve_method(cls, n.func.attr)
+                if h is None:
+                    return n
+                body = [s for s in h.node.body if not (isinstance(s, ast.Expr) and isinstance(s.value, ast.Constant))]
+                ps = [p_ for p_ in h.params if p_ != "self"]
+                if len(body) == 1 and isinstance(body[0], ast.Return) and body[0].value is not None and len(ps) == len(n.args) \
+                        and not any(isinstance(a, ast.Starred) for a in n.args):
+                    ctx.functions_analysed.add(h.key)
+                    return _subst(body[0].value, dict(zip(ps, n.args)))
+            return n
+
+    cur = copy.deepcopy(test)
+    for _ in range(depth):
+        cur = ast.fix_missing_locations(T().visit(cur))
+    return cur
+
+
+def _returns_false_formula(ctx, cls, fexpr, scope_defs):
+    """Propositional formula (over normalised atoms, the constraint parameter renamed) of `<filter>(constraint) is False`
+    for the filter function `fexpr`: a lambda, a local def, or None; None when not understood."""
+    from ._helpers_rob_e1 import _formula
+
+    def norm(t, cparam, defs):
+        return _subst(expand(_inline_simple_methods(ctx, cls, t), defs), {cparam: C_})
+
+    def of_value(v, cparam, defs):
+        if isinstance(v, ast.Constant):
+            return TRUE_ if v.value is False else FALSE_
+        if isinstance(v, ast.IfExp):
+            t = _formula(norm(v.test, cparam, defs))
+            a, b = of_value(v.body, cparam, defs), of_value(v.orelse, cparam, defs)
+            if a is None or b is None:
+                return None
+            return ("or", [("and", [t, a]), ("and", [("not", t), b])])
+        return None
+
+    if fexpr is None or (isinstance(fexpr, ast.Constant) and fexpr.value is None):
+        return FALSE_
+    if isinstance(fexpr, ast.Lambda):
+        ps = [a.arg for a in fexpr.args.args]
+        if len(ps) != 1:
+            return None
+        return of_value(fexpr.body, ps[0], scope_defs)
+    if isinstance(fexpr, (ast.FunctionDef,)):
+        ps = [a.arg for a in fexpr.args.args if a.arg != "self"]
+        if len(ps) != 1:
+            return None
+        from ..cfg import CFG
+        g = CFG(fexpr)
+        alts = []
+        defs = dict(scope_defs)
+        defs.update(once_bound(fexpr))
+        for r in [n for n in walk_local(fexpr) if isinstance(n, ast.Return)]:
+            v = of_value(r.value, ps[0], defs) if r.value is not None else FALSE_
+            if v is None:
+                return None
+            conj = [v]
+            for t, p in cfg_guards(g, r):
+                fm = _formula(norm(t, ps[0], defs))
+                conj.append(fm if p else ("not", fm))
+            alts.append(("and", conj))
+        return ("or", alts)
+    return None
+
+
+def _counterexample(premise, alternatives):
+    """valuation of the atoms (independent propositions) with `premise` true and every formula of `alternatives` false"""
+    from ._helpers_rob_e1 import _atoms_of, _eval_formula
+    names = set()
+    for fm in [premise] + list(alternatives):
+        _atoms_of(fm, names)
+    names = sorted(names)
+    if len(names) > 12:
+        return None, names
+    for bits in range(1 << len(names)):
+        val = {n: bool(bits >> i & 1) for i, n in enumerate(names)}
+        if _eval_formula(premise, val) and not any(_eval_formula(fm, val) for fm in alternatives):
+            return val, names
+    return None, names
+
+
+@R.rule("C14-R7", floor=2, template="T-SIBLING (emit-time skip <=> ordering pair kept)",
+        desc="a foreign key constraint that visit_foreign_key_constraint will NOT emit through ALTER TABLE (its early-exit "
+             "condition) must not lose its ordering pair in the sort of the same visitor: under that condition the "
+             "filter_fn handed to sort_tables_and_constraints returns False (the constraint is never deferred), or the "
+             "visitor's visit_table renders every constraint inline (the no-ALTER fallback)")
+def r7(ctx):
+    from ._helpers_rob_e1 import _atoms_of, _formula
+    stc = ctx.func(STC)
+    # the filter parameter: the parameter of the sort that is called on a constraint
+    fparams = [p_ for p_ in stc.params if any(isinstance(c.func, ast.Name) and c.func.id == p_ for c in calls_in(stc.node))]
+    ctx.require(len(fparams) == 1, f"{stc.name}: expected one callable filter parameter, found {fparams}")
+    fparam = fparams[0]
+    for cname in VISITORS:
+        cls = ctx.index.cls(f"{DDL}::{cname}")
+        vm = ctx.func(f"{DDL}::{cname}.visit_metadata")
+        vf = ctx.index.resolve_method(cls, "visit_foreign_key_constraint")
+        ctx.require(vf is not None and len(vf.params) >= 2, f"{cls.key}: no visit_foreign_key_constraint(self, constraint)")
+        ctx.functions_analysed.add(vf.key)
+        key = f"{vf.key}:skipped-constraint-keeps-ordering"
+        # S: the emitter does not emit
+        gf = ctx.cfg(vf)
+        emits = _emission_stmts(vf)
+        ctx.require(emits, f"{vf.key} runs no DDL element")
+        fdefs = once_bound(vf.node)
+        cparam = vf.params[1]
+        conj = []
+        for t, p in cfg_guards(gf, emits[0]):
+            fm = _formula(_subst(expand(_inline_simple_methods(ctx, vf.cls, t), fdefs), {cparam: C_}))
+            conj.append(fm if p else ("not", fm))
+        skip = ("not", ("and", conj))
+        # F: the filter keeps the ordering pair
+        sorts = [c for c in calls_in(vm.node, into_nested=True) if (call_name(c) or "").rsplit(".", 1)[-1] == stc.name]
+        ctx.require(sorts, f"{vm.key} does not call {stc.name}")
+        mdefs = once_bound(vm.node)
+        keeps = []
+        for c in sorts:
+            fexpr = arg_for(c, stc, fparam)
+            if isinstance(fexpr, ast.Name):
+                local = [n for n in walk_local(vm.node, into_nested=True) if isinstance(n, ast.FunctionDef) and n.name == fexpr.id]
+                fexpr = local[0] if len(local) == 1 else mdefs.get(fexpr.id, fexpr)
+            elif isinstance(fexpr, ast.Attribute) and isinstance(fexpr.value, ast.Name) and fexpr.value.id == "self":
+                h = ctx.index.resolve_method(cls, fexpr.attr)
+                fexpr = h.node if h is not None else fexpr
+            fm = _returns_false_formula(ctx, cls, fexpr, mdefs)
+            ctx.require(fm is not None, f"{vm.key}: the {fparam} handed to {stc.name} (`{unparse(fexpr)[:60] if isinstance(fexpr, ast.expr) else '<def>'}`) is not understood")
+            keeps.append(fm)
+        # I: visit_table renders everything inline (include list reset to None)
+        vt = ctx.index.resolve_method(cls, "visit_table")
+        inline = []
+        if vt is not None and INCLUDE_KW in vt.params:
+            for atoms in _only_rebound_to_none_under(ctx, vt, INCLUDE_KW):
+                inline.append(("and", [("atom", t) if p else ("not", ("atom", t)) for t, p in atoms
+                                       if f"{INCLUDE_KW} is None" not in t]))
+        # every sort call must keep the pair (or the inline fallback applies)
+        bad = None
+        for fm in keeps:
+            val, names = _counterexample(skip, [fm] + inline)
+            if val is not None:
+                bad = (val, names, fm)
+                break
+        if bad is None:
+            ctx.ok(key, f"not emitted only when the ordering pair is kept ({fparam} returns False) or everything is inline: "
+                        f"{len(conj)} guard(s), {len(keeps)} sort call(s), {len(inline)} inline fallback(s)")
+            continue
+        val, names, fm = bad
+        s_atoms = set()
+        _atoms_of(skip, s_atoms)
+        opaque = [n for n in names if "(" in n]
+        ctx.require(not opaque, f"{vf.key}: skip condition / {fparam} contain calls that are not understood: {opaque}")
+        when = " and ".join((n if val[n] else f"not ({n})") for n in sorted(s_atoms)).replace(C_, cparam)
+        ctx.violation(key,
+                      f"{vf.qualname} skips the ALTER TABLE statement for a constraint when `{when}`, but for such a constraint the "
+                      f"{fparam} that {cname}.visit_metadata hands to {stc.name} does not return False"
+                      f"{'' if inline else ' (and nothing else removes the constraint before its table)'}: the sort may take the "
+                      f"constraint out of the ordering graph (deferred to the (None, constraints) entry, its (referred table, "
+                      f"table) pair dropped) although it will never be emitted -- the tables are then processed in an order that "
+                      f"ignores a constraint which is still in place. The skip test of the emitter and the `False` test of the "
+                      f"filter must be the same predicate",
+                      vf.loc)
+
+
 # ---------------------------------------------------------------------- self-test battery
 R.mutant("fk-pair-swapped", DDL,
          sub("            if dependent_on is not table:\n                mutable_dependencies.add((dependent_on, table))\n",
@@ -1483,3 +1875,66 @@ R.mutant("else-chain-filtered-constraint-dropped", DDL,
                      "            elif filter_fn and filter_fn(fkc) is True:\n                pass\n"
                      "            else:\n                dependent_on = fkc.referred_table\n                if dependent_on is not table:\n"
                      "                    mutable_dependencies.add((dependent_on, table))\n"), "C14-R4")
+
+# ---- str2-f (round 2): seeds C14/3 (sort before the existence filter) and C14/4 (emit-time skip without ordering pair)
+_GEN_SORT = ("        collection = sort_tables_and_constraints(\n            [t for t in tables if self._can_create_table(t)]\n        )\n")
+_DROP_UNSORTED = "            unsorted_tables = [t for t in tables if self._can_drop_table(t)]\n"
+_DROP_FILTER = ("                        filter_fn=lambda constraint: (\n                            False\n"
+                "                            if not self.dialect.supports_alter\n                            or constraint.name is None\n"
+                "                            else None\n                        ),\n")
+_DROP_EMIT = ("    def visit_foreign_key_constraint(self, constraint):\n        if not self.dialect.supports_alter:\n            return\n"
+              "        with self.with_ddl_events(constraint):\n            DropConstraint(constraint)._invoke_with(self.connection)\n")
+_GEN_EMIT_FK = ("    def visit_foreign_key_constraint(self, constraint):\n        if not self.dialect.supports_alter:\n            return\n\n"
+                "        with self.with_ddl_events(constraint):\n            AddConstraint(")
+R.mutant("seed3-generator-sorts-all-tables-then-filters-entries", DDL,
+         sub(_GEN_SORT, "        collection = [\n            (t, fkcs)\n            for (t, fkcs) in sort_tables_and_constraints(tables)\n"
+                        "            if t is None or self._can_create_table(t)\n        ]\n"), "C14-R6")
+R.mutant("dropper-sorts-tables-that-do-not-exist", DDL, sub(_DROP_UNSORTED, "            unsorted_tables = list(tables)\n"), "C14-R6")
+R.mutant("generator-existence-filter-negated", DDL,
+         sub(_GEN_SORT, "        collection = sort_tables_and_constraints(\n            [t for t in tables if not self._can_create_table(t)]\n        )\n"),
+         "C14-R6")
+R.mutant("benign-s2f-creatable-tables-by-append-loop-with-continue", DDL,
+         sub(_GEN_SORT, "        creatable = []\n        for t in tables:\n            if not self._can_create_table(t):\n                continue\n"
+                        "            creatable.append(t)\n        collection = sort_tables_and_constraints(creatable)\n"), None)
+R.mutant("benign-s2f-existence-test-alias-and-entrywise-copy-of-the-sort", DDL,
+         sub(_GEN_SORT, "        can_create = self._can_create_table\n        collection = [\n            (t, fkcs)\n"
+                        "            for (t, fkcs) in sort_tables_and_constraints(\n                [t for t in tables if can_create(t)]\n"
+                        "            )\n        ]\n"), None)
+R.mutant("benign-s2f-creatable-tables-from-helper-method", DDL,
+         sub("    def visit_metadata(self, metadata):\n        tables = self._update_effective_tables(metadata)\n\n" + _GEN_SORT,
+             "    def _creatable(self, candidates):\n        return [t for t in candidates if self._can_create_table(t)]\n\n"
+             "    def visit_metadata(self, metadata):\n        tables = self._update_effective_tables(metadata)\n\n"
+             "        collection = sort_tables_and_constraints(self._creatable(tables))\n"), None)
+R.mutant("benign-s2f-droppable-tables-through-filter-builtin", DDL,
+         sub(_DROP_UNSORTED, "            unsorted_tables = list(filter(self._can_drop_table, tables))\n"), None)
+R.mutant("seed4-dropper-unnamed-constraint-deferrable-but-never-dropped", DDL,
+         chain(sub(_DROP_FILTER, "                        filter_fn=lambda constraint: (\n"
+                                 "                            False if not self.dialect.supports_alter else None\n                        ),\n"),
+               sub(_DROP_EMIT, "    def visit_foreign_key_constraint(self, constraint):\n"
+                               "        if not self.dialect.supports_alter or constraint.name is None:\n            return\n"
+                               "        with self.with_ddl_events(constraint):\n            DropConstraint(constraint)._invoke_with(self.connection)\n")),
+         "C14-R7")
+R.mutant("dropper-filter-ignores-supports-alter", DDL,
+         sub(_DROP_FILTER, "                        filter_fn=lambda constraint: (\n"
+                           "                            False if constraint.name is None else None\n                        ),\n"), "C14-R7")
+R.mutant("generator-emitter-skips-unnamed-constraints", DDL,
+         sub(_GEN_EMIT_FK, "    def visit_foreign_key_constraint(self, constraint):\n"
+                           "        if not self.dialect.supports_alter or constraint.name is None:\n            return\n\n"
+                           "        with self.with_ddl_events(constraint):\n            AddConstraint("), "C14-R7")
+R.mutant("benign-s2f-dropper-filter-as-local-def-over-a-snapshot", DDL,
+         chain(sub(_DROP_UNSORTED, _DROP_UNSORTED + "            can_alter = self.dialect.supports_alter\n\n"
+                                   "            def keep_inline(constraint):\n                if not can_alter:\n                    return False\n"
+                                   "                if constraint.name is None:\n                    return False\n                return None\n\n"),
+               sub(_DROP_FILTER, "                        filter_fn=keep_inline,\n")), None)
+R.mutant("benign-s2f-dropper-emitter-positive-guard", DDL,
+         sub(_DROP_EMIT, "    def visit_foreign_key_constraint(self, constraint):\n        dialect = self.dialect\n"
+                         "        if dialect.supports_alter:\n            with self.with_ddl_events(constraint):\n"
+                         "                DropConstraint(constraint)._invoke_with(self.connection)\n"), None)
+R.mutant("benign-s2f-dropper-filter-predicate-in-helper-method", DDL,
+         chain(sub("    def visit_metadata(self, metadata):\n        tables = self._update_effective_tables(metadata)\n\n        try:\n",
+                   "    def _stays_with_its_table(self, constraint):\n"
+                   "        return not self.dialect.supports_alter or constraint.name is None\n\n"
+                   "    def visit_metadata(self, metadata):\n        tables = self._update_effective_tables(metadata)\n\n        try:\n"),
+               sub(_DROP_FILTER, "                        filter_fn=lambda constraint: (\n"
+                                 "                            False\n                            if self._stays_with_its_table(constraint)\n"
+                                 "                            else None\n                        ),\n")), None)
